@@ -229,15 +229,7 @@ func CreateCertificate(template, parent *Certificate, publicKey *sm2.PublicKey, 
 
 	c.Raw = tbsCertContents
 
-	digest := tbsCertContents
-	switch template.SignatureAlgorithm {
-	case SM2WithSM3, SM2WithSHA1, SM2WithSHA256:
-		break
-	default:
-		h := hashFunc.New()
-		h.Write(tbsCertContents)
-		digest = h.Sum(nil)
-	}
+	digest := signingInput(signer.Public(), hashFunc, tbsCertContents)
 
 	var signerOpts crypto.SignerOpts
 	signerOpts = hashFunc
